@@ -835,7 +835,7 @@ func c07r6(c *Ctx) {
 			n++
 		}
 	})
-	c.Check("serviceExportTo consults the visibility clamp", fn.Pos(), n >= 1, "no GetApplyToSidecars test in serviceExportTo")
+	c.Check("serviceExportTo consults the visibility clamp", fn.Pos(), n >= 1 || funcHoldingDeep(fn, isClamp, 2) != nil, "no GetApplyToSidecars test in serviceExportTo")
 	// the {None} edge
 	var none []Edge
 	for _, i := range allIfs(fn) {
@@ -862,7 +862,7 @@ func c07r6(c *Ctx) {
 		}
 		none = append(none, Edge{i.Block(), idx})
 	}
-	bad, found := pathAvoidingE(fn.Blocks[0], nil, isClamp, isReturn, none, nil)
+	bad, found := pathAvoidingE(fn.Blocks[0], nil, deepMust(isClamp, 2), isReturn, none, nil)
 	pos := fn.Pos()
 	if bad != nil {
 		pos = bad.Pos()
